@@ -26,7 +26,11 @@ func (i *Duration) UnmarshalJSON(b []byte) error {
 	if l <= 2 {
 		return ErrInvalidDuration
 	}
-	var dur, err = time.ParseDuration(string(b[1 : l-1]))
+	var s = string(b)
+	if b[0] == '"' && b[l-1] == '"' {
+		s = string(b[1 : l-1])
+	}
+	var dur, err = time.ParseDuration(s)
 	if err != nil {
 		return err
 	}
